@@ -124,7 +124,20 @@ Proof. intros X W ma un Hinv f x. unfold decX, encX. rewrite <- choice_lemma. ap
 (* the builtin shortcut is symmetric in every position when the two sides agree on what is builtin *)
 Lemma builtin_pos_lemma : forall (q : position) (b : bool) (f : flags),
   enc_mech_at q b f = dec_mech_at q b f.
-Proof. intros q b f. unfold enc_mech_at, dec_mech_at. rewrite choice_lemma. reflexivity. Qed.
+Proof.
+  intros q b f. unfold enc_mech_at, dec_mech_at, enc_builtin_time_guarded, dec_builtin_time_guarded.
+  rewrite choice_lemma. reflexivity.
+Qed.
+
+(* with TimeNotBuiltin the shortcut is not taken for time.Time in any position: the chain decides *)
+Lemma time_not_builtin_lemma : forall (q : position) (b : bool) (f : flags),
+  isTime f = true -> timeBuiltin f = false ->
+  enc_mech_at q b f = fst (enc_choice f) /\ dec_mech_at q b f = fst (dec_choice f).
+Proof.
+  intros q b f Ht Hb.
+  unfold enc_mech_at, dec_mech_at, shortcut, enc_builtin_time_guarded, dec_builtin_time_guarded.
+  rewrite Ht, Hb. cbn. rewrite !andb_false_r. split; reflexivity.
+Qed.
 
 (* ... and they do: every type the encoder shortcuts is shortcut by the decoder (translated lists) *)
 Lemma builtin_lists_lemma : forallb is_dec_builtin enc_builtin_types = true.
